@@ -103,7 +103,7 @@ fn gen_call(rng: &mut Rng) -> BCall {
 pub fn generate(rng: &mut Rng, plan: &mut Plan, _index: u64) {
     plan.add_program("tool", vec![Op::ReadAll { fd: 0, chunk: 4096 }, Op::Write { fd: 1, stream: 1, len: 10, chunk: 10 }, Op::Sleep { ns: 60_000_000_000 }]);
     plan.add_program("sh", vec![Op::Exit { code: 0 }]);
-    plan.fs.push(FsEntry { path: "/work/sub".into(), node: Node::Dir { searchable: true } });
+    plan.fs.push(FsEntry { path: "/work/sub".into(), node: Node::Dir { searchable: true }, raw: None });
     let mut b = BuilderPlan::default();
     if rng.chance(1, 6) {
         b.shell = Some(gen_val(rng));
